@@ -210,7 +210,7 @@ NTF = obj(
     "NtF",
     F("x", NZ, schema=(("max", 5),)),
     F("y", ann(NZ, max=9), default=V("0")),
-    F("s", newtype("Nls", STR, max_len=0), default=V("''"), schema=(("pattern", "^a"),)),
+    F("s", newtype("Nls", STR, max_len=0), default=V("''"), schema=(("min_len", 0),)),
 )
 OBJECTS: Dict[str, Tuple[Sp, str]] = {
     "NtField": (NTF, ""),
